@@ -54,7 +54,8 @@ def jobs(tier, seed, syntaxes=('intel', 'att'), nsample=30):
         ej = core_rows + rest[:nsample]
         # every other row in the thinnest ModRM slice (mnemonic-specific rendering rules are per row: a sample of rows would miss them)
         chosen = set((j[0], j[1], j[2]) for j in ej)
-        for j in E.make_jobs(tier, seed, prefix_sets=[()], sib='one', per_signature=False):
+        # ... also under the operand-size prefix: the 16-bit forms have their own suffix / keyword rules (movzbw, cbtw, pushw ...)
+        for j in E.make_jobs(tier, seed, prefix_sets=[(), (0x66,)], sib='one', per_signature=False):
             if (j[0], j[1], j[2]) not in chosen:
                 ej.append(j)
     # scalar SSE forms exist only under the mandatory prefixes f2 / f3
